@@ -228,7 +228,11 @@ def gen_program(case_seed, force=None):
             dress = rnd.choice(('lru_cache', 'wraps'))
         via_local = ncalls >= 2 and 'taints' not in force and route in ('global', 'closure', 'attr', 'selfmethod', 'callobj', 'clsmethod') \
             and rnd.random() < 0.1
-        calls.append(dict(pi=pi, n=n, names=names, star=star, dstar=dstar, ctx=ctx, dress=dress, via_local=via_local,
+        # one of several forwarding calls only BUILDS a partial object (functools.partial(callee, *args, **kwargs)),
+        # next to calls that really call: the partial correction belongs to that call alone
+        as_partial = ncalls >= 2 and 'taints' not in force and not via_local and route in ('global', 'closure', 'attr', 'callobj') \
+            and rnd.random() < 0.12
+        calls.append(dict(pi=pi, n=n, names=names, star=star, dstar=dstar, ctx=ctx, dress=dress, via_local=via_local, as_partial=as_partial,
                           nested=ctx in NESTED_CONTEXTS, lead=[rnd.choice(('0', '0', 'None')) for _ in range(max(n, 2))][:n]))
     # a taint inside the forwarding call's own arguments: Python evaluates the explicit arguments before it
     # unpacks **kwargs, so `callee(kwargs.pop("k", None), **kwargs)` forwards a dict that was mutated first
@@ -295,7 +299,7 @@ def render(meta):
             fa.append('**OTHER_K')
         elif c['dstar'] == 'double':
             fa += ['**' + ovk, '**OTHER_K']
-        if route == 'inner_partial':
+        if route == 'inner_partial' or c.get('as_partial'):
             call = 'functools.partial(%s)' % ', '.join([cname] + fa)
         else:
             call = '%s(%s)' % (cname, ', '.join(fa))
@@ -628,7 +632,7 @@ def expected_for(meta, g, osig, combo):
         try:
             sigs_.append(signatures.forwards(
                 osig, isig, c['n'], *c['names'], use_varargs=use_va, use_varkwargs=use_kw,
-                hide_args=hide_a, hide_kwargs=hide_k, partial=(route == 'inner_partial')))
+                hide_args=hide_a, hide_kwargs=hide_k, partial=(route == 'inner_partial' or bool(c.get('as_partial')))))
         except ValueError:
             return [('forwards-raises', 'plain')]
     if not sigs_:
